@@ -47,6 +47,9 @@ MUST_HIT = ["edit:identity", "edit:add", "edit:delete", "edit:rename", "edit:byt
             "edit:coded_value", "edit:semantic", "edit:data_type", "edit:linked_dop", "edit:dop_modified",
             "edit:coded_values", "edit:constant_value", "edit:default_value",
             "dop-modified-used", "dop-modified-physical-type", "src:metrics",
+            "svcname:digit-leading", "svcname:keyword", "svcname:method-like", "svcname:numeric-suffix", "svcname:plain",
+            "dopname:digit-leading", "dopname:keyword", "dopname:method-like", "layername:digit-leading", "layername:keyword",
+            "layername:method-like",
             "nrc:alternative-added", "nrc:alternative-removed", "nrc:value-changed", "som-pe:NRC:coded_values",
             "pe:CC:byte_position", "pe:NRC:byte_position", "pe:VAL:byte_position", "pe:PC:byte_position", "pe:RES:byte_position", "pe:MR:byte_position", "pe:SYS:byte_position", "pe:LK:byte_position", "pe:TK:byte_position", "pe:TS:byte_position", "pe:CC:semantic", "pe:NRC:semantic", "pe:VAL:semantic", "pe:PC:semantic", "pe:RES:semantic", "pe:MR:semantic", "pe:SYS:semantic", "pe:LK:semantic", "pe:TK:semantic", "pe:TS:semantic", "pe:CC:bit_length", "pe:NRC:bit_length", "pe:RES:bit_length", "pe:MR:bit_length", "pe:CC:coded_value", "pe:NRC:coded_values", "pe:CC:data_type", "pe:NRC:data_type", "pe:VAL:linked_dop", "pe:PC:linked_dop", "pe:SYS:linked_dop", "pe:LK:linked_dop", "pe:PC:constant_value", "pe:VAL:default_value",
             "metrics:zero-after-nonzero:services", "metrics:zero-after-nonzero:dops", "metrics:zero-after-nonzero:comparams",
@@ -113,6 +116,36 @@ class _Patched:
         return out
 
 
+def _dl(db, name):
+    """layer by short name; not via NamedItemList[...] whose keys are escaped for digit-leading names, keywords, ..."""
+    for dl in db.diag_layers:
+        if dl.short_name == name:
+            return dl
+    raise KeyError(name)
+
+
+def name_classes(name):
+    """why a short name is awkward for attribute-style / dictionary-style access to a NamedItemList"""
+    import keyword
+    out = []
+    if name[:1].isdigit():
+        out.append("digit-leading")
+    if keyword.iskeyword(name):
+        out.append("keyword")
+    if hasattr(list, name) or name in ("keys", "values", "items", "get"):
+        out.append("method-like")
+    if re.search(r"_\d+$", name):
+        out.append("numeric-suffix")
+    if name.startswith("_"):
+        out.append("underscore-leading")
+    return out or ["plain"]
+
+
+SPECIAL_NAMES = ["2E_write_config", "31_routine", "1a", "class", "continue", "import", "in", "lambda", "keys", "items",
+                 "append", "copy", "sort", "index", "get", "values", "count", "pop", "svc", "svc_2", "svc_3", "x_2", "x",
+                 "_31_routine", "_class", "None", "extend", "remove"]
+
+
 def _tables(items):
     from rich.table import Table
     return [a for args in items for a in args if isinstance(a, Table)]
@@ -176,6 +209,10 @@ def plan_generated(desc, edit) -> Plan:
     pl.layers = [l["name"] for l in desc["layers"]]
     k = edit["kind"]
     pl.classes |= {"src:gen", f"edit:{k}", f"layers:{len(desc['layers'])}"}
+    pl.classes |= {f"layername:{c}" for l in desc["layers"] for c in name_classes(l["name"]) if c != "plain"}
+    pl.classes |= {f"dopname:{c}" for l in desc["layers"] for d in l["dops"] for c in name_classes(d["name"]) if c != "plain"}
+    pl.classes |= {f"othersvcname:{c}" for l in desc["layers"] for sv in l["services"] for c in name_classes(sv["name"])
+                   if c != "plain"}
     for li, ln in enumerate(pl.layers):
         pl.expected[ln] = {q: [] for q in EMPTY}
         pl.counts_old[ln] = M.effective_counts(desc, li)
@@ -204,6 +241,7 @@ def plan_generated(desc, edit) -> Plan:
         for ln in pl.layers:
             pl.expected[ln]["changed"] = list(users[ln])
         used = [ln for ln in pl.layers if users[ln]]
+        pl.classes |= {f"svcname:{c}" for ln in used for n in users[ln] for c in name_classes(n)}
         pl.classes.add("dop-modified-used" if used else "dop-modified-unused")
         if len(used) > 1:
             pl.classes.add("inherited-layer-affected")
@@ -230,6 +268,7 @@ def plan_generated(desc, edit) -> Plan:
         pl.expected[ln][key] = [name]
         if k == "rename":
             pl.old_names[ln] = [svc["name"]]
+    pl.classes |= {f"svcname:{c}" for c in name_classes(name if k != "rename" else svc["name"])}
     n_old = pl.counts_old[pl.layers[li]]["services"]
     n_new = pl.counts_new[pl.layers[li]]["services"]
     pl.nontrivial = max(n_old, n_new) >= 2
@@ -428,7 +467,7 @@ def evaluate(case):
                 if not isinstance(sd, dict):
                     fail("classification", f"compare_databases has no entry for layer {ln}", bucket="no-layer-entry")
                     continue
-                jobs.append(("db", ln, sd, pl.expected[ln], pl.old_names.get(ln), db_new.diag_layers[ln]))
+                jobs.append(("db", ln, sd, pl.expected[ln], pl.old_names.get(ln), _dl(db_new, ln)))
             try:
                 task.print_database_changes(result)
             except Exception as e:  # noqa: BLE001
@@ -437,8 +476,8 @@ def evaluate(case):
             px.take("compare"); px.take("utils")
         # the same through compare_diagnostic_layers (what `-v` uses), plus self comparison
         for ln in pl.layers:
-            for label, a, b, exp, oldn in (("dl", db_new.diag_layers[ln], db_old.diag_layers[ln], pl.expected[ln], pl.old_names.get(ln)),
-                                          ("self", db_new.diag_layers[ln], db_new.diag_layers[ln], EMPTY, None)):
+            for label, a, b, exp, oldn in (("dl", _dl(db_new, ln), _dl(db_old, ln), pl.expected[ln], pl.old_names.get(ln)),
+                                          ("self", _dl(db_new, ln), _dl(db_new, ln), EMPTY, None)):
                 try:
                     sd = task.compare_diagnostic_layers(a, b)
                 except Exception as e:  # noqa: BLE001
@@ -448,12 +487,12 @@ def evaluate(case):
                 jobs.append((label, ln, sd, exp, oldn, a))
         for a, b, exp in pl.vv:
             try:
-                sd = task.compare_diagnostic_layers(db_old.diag_layers[a], db_old.diag_layers[b])
+                sd = task.compare_diagnostic_layers(_dl(db_old, a), _dl(db_old, b))
             except Exception as e:  # noqa: BLE001
                 fail("exception", f"compare_diagnostic_layers({a},{b}) raised {type(e).__name__}: {e}",
                      bucket=f"exception:vv:{type(e).__name__}")
                 continue
-            jobs.append(("vv", a, sd, exp, None, db_old.diag_layers[a]))
+            jobs.append(("vv", a, sd, exp, None, _dl(db_old, a)))
             pl.classes.add("variant-vs-variant")
 
         seen = set()
@@ -574,7 +613,7 @@ def evaluate_metrics(case):
             classes.add(f"metrics:via:{how}")
             try:
                 if how == "compare":
-                    PU.print_dl_metrics([db.diag_layers[n] for n in onames])
+                    PU.print_dl_metrics([_dl(db, n) for n in onames])
                 else:
                     L.print_summary(db, variants=list(onames), print_services=True, print_dops=True, print_comparams=True)
             except Exception as e:  # noqa: BLE001 - classified
@@ -745,6 +784,11 @@ def _strategies():
         used_px = set()
         layers = []
         sc = 0
+        pool = list(draw(st.permutations(SPECIAL_NAMES)))
+
+        def pick(default, one_in):
+            """an awkward short name (each at most once per description) or the plain default"""
+            return pool.pop() if pool and draw(st.integers(0, one_in - 1)) == 0 else default
 
         def avail_of(li, parent, dops, table):
             pa = layers[0] if parent == 0 else None
@@ -754,7 +798,7 @@ def _strategies():
         for li in range(nl):
             parent = None if li == 0 else draw(st.sampled_from([None, 0, 0]))
             nd = draw(st.integers(2, 4))
-            dops = [{"name": f"d{li}_{k}", "bits": draw(st.sampled_from([8, 8, 16])),
+            dops = [{"name": pick(f"d{li}_{k}", 4), "bits": draw(st.sampled_from([8, 8, 16])),
                      "type": draw(st.sampled_from(M.INT_TYPES))} for k in range(nd)]
             dops[1]["bits"] = dops[0]["bits"]
             for d in dops[1:]:          # the first DOP of a layer stays IDENTICAL (table key, constants, defaults)
@@ -766,10 +810,10 @@ def _strategies():
             ns = draw(st.integers(1, 5 if li == 0 else 3))
             services = []
             for _ in range(ns):
-                services.append(draw_service(draw, avail, tables, f"s{sc}", used_px))
+                services.append(draw_service(draw, avail, tables, pick(f"s{sc}", 2), used_px))
                 sc += 1
             cps = [[i, str(draw(st.integers(0, 9)))] for i in range(ncp) if draw(st.booleans())]
-            layers.append({"name": f"L{li}", "parent": parent, "dops": dops, "services": services,
+            layers.append({"name": pick(f"L{li}", 4), "parent": parent, "dops": dops, "services": services,
                            "comparam_refs": cps, "table": table})
         desc = {"layers": layers, "n_comparams": ncp}
         if not M.well_formed(desc):
@@ -785,7 +829,7 @@ def _strategies():
             edit = {"kind": "identity"}
         elif kind == "add":
             avail, tables = avail_of(li, lay["parent"], lay["dops"], lay.get("table"))
-            new_svc = draw_service(draw, avail, tables, f"s{sc}", used_px)
+            new_svc = draw_service(draw, avail, tables, pick(f"s{sc}", 2), used_px)
             edit = {"kind": "add", "layer": li, "at": draw(st.integers(0, len(lay["services"]))), "service": new_svc}
             if not M.well_formed(M.apply_edit(desc, edit)):
                 new_svc["request"]["params"] = new_svc["request"]["params"][:2]
@@ -878,7 +922,7 @@ def rich_description():
         return P("CC", name, pos, sem, bits=bits, value=value, type=typ)
 
     d = lambda n, b, t="A_UINT32", **kw: dict({"name": n, "bits": b, "type": t}, **kw)  # noqa: E731
-    s0 = {"name": "s0", "uid": "s0", "semantic": "FUNCTION",
+    s0 = {"name": "2E_write_config", "uid": "s0", "semantic": "FUNCTION",
           "request": {"name": "rq_s0", "params": [
               cc("sid", 0, 0x22, sem="SERVICE-ID"), cc("sub", 1, 1), P("VAL", "v0", 2, dop="d1"),
               P("PC", "p0", 3, dop="d0", value=5), P("RES", "r0", None, bits=8), P("SYS", "y0", 6, dop="d1", sysparam="TIMESTAMP"),
@@ -897,21 +941,28 @@ def rich_description():
               P("TK", "k0", 14, table="tb0"), P("TS", "t0", None, key="k0")]},
               {"name": "nr_s0_1", "params": [cc("sid", 0, 0x7F), cc("rq", 1, 0x22),
                                              P("NRC", "n0", None, "DATA", bits=16, values=[0x31], type="A_INT32")]}]}
-    s1 = {"name": "s1", "uid": "s1", "semantic": None,
+    s1 = {"name": "class", "uid": "s1", "semantic": None,
           "request": {"name": "rq_s1", "params": [cc("sid", 0, 0x22), cc("sub", 1, 2, 16), P("VAL", "v0", None, dop="d2")]},
           "pos": [{"name": "pr_s1_0", "params": [cc("sid", 0, 0x62), cc("c0", 2, 5)]}],
           "neg": [{"name": "nr_s1_0", "params": [cc("sid", 0, 0x7F), cc("rq", 1, 0x22),
                                                   P("NRC", "n0", 2, bits=8, values=[1, 2], type="A_UINT32")]}]}
-    s2 = {"name": "s2", "uid": "s2", "semantic": "SESSION",
+    s2 = {"name": "keys", "uid": "s2", "semantic": "SESSION",
           "request": {"name": "rq_s2", "params": [cc("sid", 0, 0x31), cc("sub", 1, 1), P("VAL", "v0", 3, dop="e0"),
                                                   P("TK", "k0", 4, table="tb0"), P("TS", "t0", None, key="k0")]},
           "pos": [], "neg": [{"name": "nr_s2_0", "params": [cc("sid", 0, 0x7F), cc("rq", 1, 0x31),
                                                             P("NRC", "n0", 2, bits=8, values=[0x22], type="A_UINT32"),
                                                             P("VAL", "v0", 3, dop="d1")]}]}
+    s3 = {"name": "svc", "uid": "s3", "semantic": None,
+          "request": {"name": "rq_s3", "params": [cc("sid", 0, 0x31), cc("sub", 1, 2), P("VAL", "in", 2, dop="items")]},
+          "pos": [{"name": "pr_s3_0", "params": [cc("sid", 0, 0x71), P("VAL", "v0", 1, dop="items")]}], "neg": []}
+    s4 = {"name": "svc_2", "uid": "s4", "semantic": None,
+          "request": {"name": "rq_s4", "params": [cc("sid", 0, 0x31), cc("sub", 1, 3), P("VAL", "copy", None, dop="e0")]},
+          "pos": [], "neg": [{"name": "nr_s4_0", "params": [cc("sid", 0, 0x7F), cc("rq", 1, 0x31),
+                                                            P("NRC", "n0", 2, bits=8, values=[0x12], type="A_UINT32")]}]}
     return {"n_comparams": 3, "layers": [
         {"name": "L0", "parent": None, "dops": [d("d0", 8), d("d1", 8), d("d2", 16), d("d3", 8, "A_INT32", compu={"offset": 1, "factor": 2}, phys="A_FLOAT64")],
          "services": [s0, s1], "comparam_refs": [[0, "5"], [1, "7"]], "table": {"name": "tb0", "key_dop": "d0"}},
-        {"name": "L1", "parent": 0, "dops": [d("e0", 8), d("e1", 8, "A_INT32")], "services": [s2],
+        {"name": "1st_ecu", "parent": 0, "dops": [d("e0", 8), d("items", 8, "A_INT32")], "services": [s2, s3, s4],
          "comparam_refs": [[1, "9"], [2, "1"]], "table": {"name": "tb1", "key_dop": "e0"}}]}
 
 
